@@ -52,7 +52,7 @@ m = {
     'checks': checks,
     'notes': 'exit 0 = held on everything explored, 1 = VIOLATION line, 2 = harness/build error (never a verdict). Known findings: /verif/known-findings.txt.',
 }
-if na:
-    m['not_applicable'] = na
+# always present, so that "nothing is unclaimed" is stated rather than implied
+m['not_applicable'] = na
 json.dump(m, open(f'{V}/MANIFEST.json', 'w'), indent=1)
 print('checks:', len(checks), 'not_applicable:', len(na))
